@@ -1,5 +1,6 @@
 import QipVerif.Util.Proto
 import QipVerif.Model.QasmExport
+import QipVerif.Model.QasmImport
 /-! Driver for the QASM models (C10 exporter, C04 importer, the strict recogniser).
 
 Text that may contain spaces is hex-encoded (two lower-case hex digits per byte, ASCII only).
@@ -11,6 +12,9 @@ Text that may contain spaces is hex-encoded (two lower-case hex digits per byte,
     arg = `N` | `S<hex str(x)>` | `Q<kind>/<hex str(container)>/<hex str(x0)>,<hex str(x1)>,…`
 * `accept lines=<hex>,<hex>,…` → `true` | `false`      (strict recogniser on a whole text)
 * `parse line=<hex>` → `reject` | `blank` | `stmt`
+* `import prog=<program>` → `ok nq=.. nc=.. text=<hex lines> ops=<ops>` | `err <kind> text=<hex lines>`
+    (model of `read_qasm` on the program; `text` = the program rendered one statement per line)
+* `spec prog=<program>` → `ok nq=.. nc=.. ops=<built-ins>` | `err <kind>`   (the standard's denotation)
 -/
 open QipVerif QipVerif.Proto QipVerif.Qasm
 
@@ -74,6 +78,162 @@ def parseOp (s : String) : Option Export.Op :=
     | _ => none
   | _ => none
 
+/-! ### programs (C04): prefix encoding of the AST
+
+statements `;`-separated, fields `|`-separated, lists `,`-separated, expression tokens
+`.`-separated (prefix notation: `P` pi, `L<hex>` literal, `I<hex>` identifier, `N` minus,
+`A S M D W` binary + - * / ^, `F<hex>` function); body operations of a gate definition are
+`/`-separated with `~`-separated fields. -/
+
+def pExprToks : Nat → List String → Option (Expr × List String)
+  | 0, _ => none
+  | _ + 1, [] => none
+  | f + 1, t :: r =>
+    if t == "P" then some (.pi, r)
+    else if t.startsWith "L" then (unhex (t.drop 1).toString).map (fun s => (.lit s, r))
+    else if t.startsWith "I" then (unhex (t.drop 1).toString).map (fun s => (.id s, r))
+    else if t == "N" then (pExprToks f r).map (fun (e, r') => (.neg e, r'))
+    else if t.startsWith "F" then
+      match unhex (t.drop 1).toString, pExprToks f r with
+      | some n, some (e, r') => some (.fn n e, r')
+      | _, _ => none
+    else
+      match pExprToks f r with
+      | some (a, r1) =>
+        match pExprToks f r1 with
+        | some (b, r2) =>
+          if t == "A" then some (.add a b, r2) else if t == "S" then some (.sub a b, r2)
+          else if t == "M" then some (.mul a b, r2) else if t == "D" then some (.div a b, r2)
+          else if t == "W" then some (.pow a b, r2) else none
+        | none => none
+      | none => none
+
+def decExpr (s : String) : Option Expr :=
+  let ts := s.splitOn "."
+  match pExprToks (ts.length + 1) ts with
+  | some (e, []) => some e
+  | _ => none
+
+def decList {α} (f : String → Option α) (s : String) : Option (List α) :=
+  if s.isEmpty then some [] else (s.splitOn ",").mapM f
+
+def decArg (s : String) : Option Arg :=
+  if s.startsWith "w" then (unhex (s.drop 1).toString).map .whole
+  else if s.startsWith "i" then
+    match (s.drop 1).toString.splitOn ":" with
+    | [h, n] => match unhex h, n.toNat? with
+      | some r, some i => some (.idx r i)
+      | _, _ => none
+    | _ => none
+  else none
+
+def decQOp (fs : List String) : Option QOp :=
+  match fs with
+  | ["U", a, b, c, q] =>
+    match decExpr a, decExpr b, decExpr c, decArg q with
+    | some a, some b, some c, some q => some (.U a b c q)
+    | _, _, _, _ => none
+  | ["X", a, b] => match decArg a, decArg b with
+    | some a, some b => some (.CX a b)
+    | _, _ => none
+  | ["A", n, ps, qs] =>
+    match unhex n, decList decExpr ps, decList decArg qs with
+    | some n, some ps, some qs => some (.call n ps qs)
+    | _, _, _ => none
+  | ["M", q, c] => match decArg q, decArg c with
+    | some q, some c => some (.measure q c)
+    | _, _ => none
+  | ["R", q] => (decArg q).map .reset
+  | _ => none
+
+def decGOp (s : String) : Option GOp :=
+  match s.splitOn "~" with
+  | ["u", a, b, c, q] =>
+    match decExpr a, decExpr b, decExpr c, unhex q with
+    | some a, some b, some c, some q => some (.U a b c q)
+    | _, _, _, _ => none
+  | ["c", a, b] => match unhex a, unhex b with
+    | some a, some b => some (.CX a b)
+    | _, _ => none
+  | ["g", n, ps, qs] =>
+    match unhex n, decList decExpr ps, decList unhex qs with
+    | some n, some ps, some qs => some (.call n ps qs)
+    | _, _, _ => none
+  | ["b", qs] => (decList unhex qs).map .barrier
+  | _ => none
+
+def decStmt (s : String) : Option Stmt :=
+  match s.splitOn "|" with
+  | ["V"] => some .version
+  | ["C", f] => (unhex f).map .incl
+  | ["Q", n, k] => match unhex n, k.toNat? with
+    | some n, some k => some (.qreg n k)
+    | _, _ => none
+  | ["K", n, k] => match unhex n, k.toNat? with
+    | some n, some k => some (.creg n k)
+    | _, _ => none
+  | ["G", n, ps, qs, body] =>
+    match unhex n, decList unhex ps, decList unhex qs,
+        (if body.isEmpty then some [] else (body.splitOn "/").mapM decGOp) with
+    | some n, some ps, some qs, some b => some (.gate ⟨n, ps, qs, b⟩)
+    | _, _, _, _ => none
+  | ["O", n, ps, qs] =>
+    match unhex n, decList unhex ps, decList unhex qs with
+    | some n, some ps, some qs => some (.opaque n ps qs)
+    | _, _, _ => none
+  | "I" :: c :: k :: rest =>
+    match unhex c, k.toNat?, decQOp rest with
+    | some c, some k, some op => some (.ifc c k op)
+    | _, _, _ => none
+  | ["B", qs] => (decList decArg qs).map .barrier
+  | fs => (decQOp fs).map .qop
+
+def decProgram (s : String) : Option Program :=
+  if s.isEmpty then some [] else (s.splitOn ";").mapM decStmt
+
+def encIdx : Option (List Nat) → String
+  | none => "N"
+  | some l => "L" ++ ".".intercalate (l.map toString)
+
+def encONat : Option Nat → String
+  | none => "N"
+  | some n => toString n
+
+def encIArg : Import.IArg → String
+  | .none => "N"
+  | .one e => "O" ++ hex e.render
+  | .many es => "M" ++ ",".intercalate (es.map (fun e => hex e.render))
+
+def encIGate (sep : String) (g : Import.IGate) : String :=
+  sep.intercalate ["g", hex g.name, encIdx (some g.targets), encIdx g.controls, encIArg g.arg,
+    encIdx g.cctrl, encONat g.cval]
+
+def encIOp : Import.IOp → String
+  | .gate g => encIGate ":" g
+  | .custom n ts cc cv inner =>
+    ":".intercalate ["c", hex n, encIdx (some ts), encIdx cc, encONat cv,
+      "+".intercalate (inner.map (encIGate "~"))]
+  | .meas q c => s!"m:{q}:{c}"
+
+def importErr : Import.Err → String
+  | .key => "key" | .value => "value" | .syntax => "syntax" | .notImpl => "notImpl" | .name => "name"
+  | .zeroDiv => "zeroDiv" | .index => "index" | .recursion => "recursion"
+
+def specErr : SpecErr → String
+  | .undeclaredReg => "undeclaredReg" | .undeclaredGate => "undeclaredGate" | .indexRange => "indexRange"
+  | .repeatedQubit => "repeatedQubit" | .arity => "arity" | .broadcast => "broadcast" | .freeId => "freeId"
+  | .unsupported => "unsupported" | .redeclared => "redeclared"
+
+def encCond : Option Cond → String
+  | none => "N"
+  | some c => ".".intercalate (c.bits.map toString) ++ "/" ++ toString c.k
+
+def encOp : Op → String
+  | .prim c (.U a b l q) => ":".intercalate ["U", encCond c, hex a.render, hex b.render, hex l.render, toString q]
+  | .prim c (.CX a b) => ":".intercalate ["X", encCond c, toString a, toString b]
+  | .measure c q b => ":".intercalate ["M", encCond c, toString q, toString b]
+  | .barrier qs => "B:" ++ ".".intercalate (qs.map toString)
+
 def exportErr : Export.Err → String
   | .notImpl => "notImpl" | .attr => "attr" | .type => "type" | .index => "index" | .value => "value"
 
@@ -96,6 +256,21 @@ def step (line : String) : String :=
       match (ls.splitOn ",").mapM unhex with
       | some l => if acceptProgram l then "true" else "false"
       | none => "bad-op"
+    | none => "bad-op"
+  | some "import" =>
+    match (fStr? fs "prog").bind decProgram with
+    | some p =>
+      let text := ",".intercalate ((renderProgram p).map hex)
+      match Import.importProgram p with
+      | .ok (nq, nc, ops) => s!"ok nq={nq} nc={nc} text={text} ops=" ++ ";".intercalate (ops.map encIOp)
+      | .error e => "err " ++ importErr e ++ " text=" ++ text
+    | none => "bad-op"
+  | some "spec" =>
+    match (fStr? fs "prog").bind decProgram with
+    | some p =>
+      match denote p with
+      | .ok (nq, nc, ops) => s!"ok nq={nq} nc={nc} ops=" ++ ";".intercalate (ops.map encOp)
+      | .error e => "err " ++ specErr e
     | none => "bad-op"
   | some "parse" =>
     match (fStr? fs "line").bind unhex with
